@@ -174,6 +174,9 @@ func c12Exec(c *Sexp) Outcome {
 	case renderShift(placed.node, d) != renderShift(al.node, 0):
 		fail = "Parse results differ beyond the shift"
 	}
+	if fail == "" {
+		fail = reuseOracle(placed)
+	}
 	return Outcome{Real: "R:" + placed.direct + "|P:" + placed.viaParse, OracleFail: fail,
 		Nontrivial: placed.res != nil || placed.err != nil, Tags: []string{fmt.Sprintf("workload:%d", workloadOf(c)), fmt.Sprintf("base-offset:%d", bucket(-d + 1))}}
 }
